@@ -1419,6 +1419,21 @@ SyntaxVisitor::Action TypeChecker::visitVAArgumentExpression(const VAArgumentExp
 SyntaxVisitor::Action TypeChecker::visitOffsetOfExpression(const OffsetOfExpressionSyntax*) { return Action::Skip; }
 SyntaxVisitor::Action TypeChecker::visitCompoundLiteralExpression(const CompoundLiteralExpressionSyntax*) { return Action::Skip; }
 
+namespace
+{
+// The type of a compound assignment is that of its (unqualified) left
+// operand (6.5.16-3); that of a binary operation is the converted one.
+const Type* typeOfBinaryLikeResult(const BinaryExpressionSyntax*, const Type*, const Type* convTy)
+{
+    return convTy;
+}
+
+const Type* typeOfBinaryLikeResult(const AssignmentExpressionSyntax*, const Type* leftTy, const Type*)
+{
+    return leftTy;
+}
+} // anonymous
+
 SyntaxVisitor::Action TypeChecker::visitBinaryExpression(const BinaryExpressionSyntax* node)
 {
     VISIT(node->left());
@@ -1471,7 +1486,7 @@ SyntaxVisitor::Action TypeChecker::visitBinaryExpression_MultiplicationOrDivisio
         return typeCheckError(node);
     }
     auto ty = determineCommonRealType(leftTy->asBasicType(), rightTy->asBasicType());
-    return typeChecked(node, ty);
+    return typeChecked(node, typeOfBinaryLikeResult(node, leftTy, ty));
 }
 
 template <class BinaryLikeExprNodeT>
@@ -1485,7 +1500,7 @@ SyntaxVisitor::Action TypeChecker::visitBinaryExpression_Remainder(
         return typeCheckError(node);
     }
     auto ty = determineCommonRealType(leftTy->asBasicType(), rightTy->asBasicType());
-    return typeChecked(node, ty);
+    return typeChecked(node, typeOfBinaryLikeResult(node, leftTy, ty));
 }
 
 template <class BinaryLikeExprNodeT>
@@ -1510,7 +1525,7 @@ SyntaxVisitor::Action TypeChecker::visitBinaryExpression_Addition(
         diagReporter_.InvalidOperator(node->operatorToken());
         return typeCheckError(node);
     }
-    return typeChecked(node, ty);
+    return typeChecked(node, typeOfBinaryLikeResult(node, leftTy, ty));
 }
 
 template <class BinaryLikeExprNodeT>
@@ -1539,7 +1554,7 @@ SyntaxVisitor::Action TypeChecker::visitBinaryExpression_Subtraction(
         diagReporter_.InvalidOperator(node->operatorToken());
         return typeCheckError(node);
     }
-    return typeChecked(node, ty);
+    return typeChecked(node, typeOfBinaryLikeResult(node, leftTy, ty));
 }
 
 template <class BinaryLikeExprNodeT>
@@ -1554,7 +1569,7 @@ SyntaxVisitor::Action TypeChecker::visitBinaryExpression_BitwiseShift(
     }
     auto promoTyK = performIntegerPromotion(leftTy->asBasicType()->kind());
     auto ty = semaModel_->compilation()->canonicalBasicType(promoTyK);
-    return typeChecked(node, ty);
+    return typeChecked(node, typeOfBinaryLikeResult(node, leftTy, ty));
 }
 
 template <class BinaryLikeExprNodeT>
@@ -1652,11 +1667,11 @@ SyntaxVisitor::Action TypeChecker::visitAssignmentExpression(
             return visitBinaryExpression_Addition(node, leftTy, rightTy);
         case SyntaxKind::MinusEqualsToken:
             return visitBinaryExpression_Subtraction(node, leftTy, rightTy);
-        case SyntaxKind::LessThanEqualsToken:
-        case SyntaxKind::GreaterThanEqualsToken:
+        case SyntaxKind::LessThanLessThanEqualsToken:
+        case SyntaxKind::GreaterThanGreaterThanEqualsToken:
             return visitBinaryExpression_BitwiseShift(node, leftTy, rightTy);
         case SyntaxKind::AmpersandEqualsToken:
-        case SyntaxKind::ExclamationEqualsToken:
+        case SyntaxKind::BarEqualsToken:
         case SyntaxKind::CaretEqualsToken:
             return visitBinaryExpression_Bitwise(node, leftTy, rightTy);
         default:
